@@ -55,10 +55,16 @@ type c36Cfg struct {
 	cid, nets, nodes string
 	member           bool
 	dm               string
+	known            bool // the address already sent a request and is known as node n1 (AddNode) when the history starts
 }
 
 func (c c36Cfg) String() string {
-	return fmt.Sprintf("cid:%s,nets:%s,nodes:%s,member:%v,dm:%s", c.cid, c.nets, c.nodes, c.member, c.dm)
+	s := fmt.Sprintf("cid:%s,nets:%s,nodes:%s,member:%v,dm:%s", c.cid, c.nets, c.nodes, c.member, c.dm)
+	if c.known {
+		s += ",known:n1"
+	}
+
+	return s
 }
 
 type c36Env struct {
@@ -202,6 +208,16 @@ func c36NewSys(env *c36Env, cfg c36Cfg, addr *net.UDPAddr) *c36Sys {
 	s.apply(c36Event{"nets", cfg.nets})
 	s.apply(c36Event{"nodes", cfg.nodes})
 	s.apply(c36Event{"dm", cfg.dm})
+
+	if cfg.known {
+		// AddNode only works for an address that is in the pool already
+		s.apply(c36Event{"req", "-"})
+		s.apply(c36Event{"addnode", "n1"})
+
+		if s.m.node != "n1" {
+			panic("setup: AddNode did not register the node")
+		}
+	}
 
 	return s
 }
@@ -427,6 +443,12 @@ func TestVerifC36(t *testing.T) {
 				for _, member := range []bool{false, true} {
 					for _, dm := range []string{"hit", "miss"} {
 						cfgs = append(cfgs, c36Cfg{cid: cid, nets: nets, nodes: nodes, member: member, dm: dm})
+
+						// node and suffrage rules only apply to a known node, which takes two events
+						// (request, AddNode) to reach: start from there too
+						if nodes != "nil" || member {
+							cfgs = append(cfgs, c36Cfg{cid: cid, nets: nets, nodes: nodes, member: member, dm: dm, known: true})
+						}
 					}
 				}
 			}
@@ -439,7 +461,8 @@ func TestVerifC36(t *testing.T) {
 		{"cid", "nil"}, {"cid", "c1"}, {"cid", "c1c2"},
 		{"nets", "nil"}, {"nets", "8"}, {"nets", "16>8"}, {"nets", "8>16"},
 		{"nodes", "nil"}, {"nodes", "n1"},
-		{"member", "on"}, {"member", "off"}, {"member", "rotate"},
+		{"member", "on"}, {"member", "off"}, // n1 joins / leaves the consensus nodes, SAME suffrage state hash
+		{"member", "rotate"}, // new suffrage state hash, same members
 		{"suf", "suf2"},
 		{"dm", "hit"}, {"dm", "miss"},
 	}
@@ -452,6 +475,10 @@ func TestVerifC36(t *testing.T) {
 
 	for _, cfg := range cfgs {
 		for _, an := range []string{"a1", "a2", "a3"} {
+			if cfg.known && an == "a1" {
+				continue // for a known node a2 (in 10/8 only) and a3 (in no net) cover the net interplay
+			}
+
 			mine := r.Mine(item)
 			item++
 
